@@ -45,8 +45,9 @@ MANIFEST = dict(
     category="proof",
     text="Theorems over an executable model of bpf/proxy Syncer.Apply (id assignment, desired frontend/backend maps, the four "
          "dataplane phases as single writes in arbitrary order with arbitrary write failures, restarts): after every single "
-         "write every frontend's count refers only to existing backend entries; after a completed sync the maps are exactly "
-         "what the services ask for.  Correspondence run of the real Syncer over recording in-memory maps with the "
+         "write every frontend's count refers only to existing backend entries (c42_every_write_consistent); after a completed "
+         "sync the maps are exactly what the services ask for (c42_completed_sync_is_desired, c42_frontends_exactly_requested, and "
+         "c42_final_exact for the variant that empties prevSvcMap at each startup sync; c42_final_exact_refuted for the pinned code).  Correspondence run of the real Syncer over recording in-memory maps with the "
          "invariant evaluated after each recorded write.",
     note="Trusted: Coq kernel; hand-written model tied to the code only by the correspondence run; Go driver and shims.",
 )
